@@ -125,6 +125,9 @@ func newExplorer(l *loaded, workers int) *Explorer {
 		var v Value = opaqueErr(name)
 		ex.depGlobals[name] = &v
 	}
+	var maxLen Value = Int{V: 64}
+	ex.depGlobals["internal/bytealg.MaxLen"] = &maxLen
+	ex.runDepInits()
 	if os.Getenv("VERIF_NO_INIT_CACHE") == "" {
 		ex.runInits()
 	}
